@@ -14,7 +14,8 @@ def flags : Flags :=
     discAABBZ := .selfZ,
     lineContainsChecksZ := true,
     projectAxis1 := true,
-    fromShapelyPassesZ := true }
+    fromShapelyPassesZ := true,
+    compTrueStructural := false }
 
 /-- the `isinstance` chains of every class's intersect / union / difference / intersects, in source order -/
 def clsTable : Kind → Op → Option (List Clause)
@@ -53,5 +54,9 @@ def genericTable : Op → List Clause
   | .intersects => [⟨[.tried], .viaIntersect⟩, ⟨[], .reverse⟩]
 
 def table : Table := ⟨clsTable, genericTable⟩
+
+/-- src/scenic/core/workspaces.py: which region methods of `Workspace` hand the call on to `self.region` -/
+def workspace : List Delegation :=
+  [⟨"intersect", true⟩, ⟨"intersects", true⟩, ⟨"difference", true⟩, ⟨"union", true⟩, ⟨"containsPoint", true⟩, ⟨"containsObject", true⟩, ⟨"containsRegionInner", true⟩, ⟨"distanceTo", true⟩, ⟨"projectVector", true⟩, ⟨"uniformPointInner", true⟩, ⟨"AABB", true⟩, ⟨"dimensionality", true⟩, ⟨"size", true⟩]
 
 end Scenic.Gen.RegionOps
